@@ -57,20 +57,31 @@ def min_fd(G, attr, is_int, ignore=(), cons=(), coverage=1.0, kmax=4, starts=(),
     for p in paths:
         c = collections.Counter(e for e in zip(p, p[1:]) if e in f)
         cols.append(dict(c))
+    memo = {}
+    def weights_for(support):
+        """positive weights on exactly these paths explaining f, or None"""
+        if support not in memo:
+            if not support:
+                memo[support] = [] if all(v == 0 for v in f.values()) else None
+            elif is_int:
+                memo[support] = _int_weights([cols[j] for j in support], f)
+            else:
+                sol = solve_exact([cols[j] for j in support], f)
+                memo[support] = sol if (sol is not None and all(w > 0 for w in sol)) else None
+        return memo[support]
     for k in range(1, kmax + 1):
         for combo in itertools.combinations(range(len(paths)), k):
-            if is_int:
-                sol = _int_weights([cols[j] for j in combo], f)
-            else:
-                sol = solve_exact([cols[j] for j in combo], f)
-                if sol is not None and any(w <= 0 for w in sol):
-                    sol = None
-            if sol is None:
-                continue
             routes = [paths[j] for j in combo]
             if cons and props.constraint_covered(cons, routes, coverage, lengths) is not None:
                 continue
-            return k, (routes, sol)
+            # without constraints every path carries positive weight; with constraints further paths of weight 0
+            # may be needed only to realise a constraint
+            supports = [combo] if not cons else [sub for r in range(k, -1, -1) for sub in itertools.combinations(combo, r)]
+            for sup in supports:
+                sol = weights_for(tuple(sup))
+                if sol is not None:
+                    w = dict(zip(sup, sol))
+                    return k, (routes, [w.get(j, 0) for j in combo])
     return None, None
 
 
